@@ -1696,3 +1696,30 @@ Proof.
   subst a. exists raw. apply nth_error_In in En. split; [eapply sublist_In; eassumption|].
   unfold sizes_ok in H5. rewrite Forall_forall in H5. apply (H5 _ En).
 Qed.
+
+(* ------------------------------------------------------------------ what is counted is what is stored *)
+(* Modelling assumption (stated in Ft.v): a Vec grows on demand, its capacity is only the keep-data flag and never
+   bounds file_data.  Then for every package sequence (with or without announcement): while a transfer is running
+   and keeps data, the stored bytes are as many as the counted payload; once Complete, the reported file size is the
+   counted payload and everything that can be saved (save command, auto-saved file) has exactly that length. *)
+Theorem stored_equals_counted c fs ms s rets i t :
+  run c (init_st fs) ms = Ok (s, rets) -> nth_error (s_transfers s) i = Some t ->
+  (is_active (t_state t) = true -> 0 < t_cap t -> lenN (t_data t) = t_payload t) /\
+  (t_state t = Complete ->
+     t_size t = t_payload t /\
+     (forall d, saved_bytes s i = Some d -> lenN d = t_size t) /\
+     (forall p, t_saved t = Some p -> exists d, lookup_path p (s_fs s) = Some d /\ lenN d = t_size t) /\
+     (t_data t = [] \/ lenN (t_data t) = t_size t)).
+Proof.
+  intros Hrun Ht. destruct (run_Inv _ _ _ _ _ Hrun) as [HI _].
+  destruct (inv_t _ _ _ HI i t Ht) as [acc [T1 [[T2 T3] T4]]].
+  destruct T1 as [S1 S2 S3 S4 S5 S6 S7 S8 S9 S10 S11]. split.
+  - intros Ha Hc. rewrite (S8 Hc Ha). symmetry. exact S4.
+  - intros Hst.
+    assert (Hsz : t_size t = t_payload t).
+    { destruct T4 as [[m [f [_ [_ [_ [_ [_ [_ [_ [_ [_ [A10 _]]]]]]]]]]]]|[_ [_ [_ [_ [R5 _]]]]]]; [apply A10; exact Hst|auto]. }
+    split; [exact Hsz|]. rewrite Hsz, S4. split; [|split].
+    + intros d Hd. destruct (T2 d Hd) as [_ ->]. reflexivity.
+    + intros p Hp. destruct (T3 p Hp) as [_ Hl]. eexists. split; [exact Hl|reflexivity].
+    + destruct S9 as [E|E]; [left; exact E|right; rewrite E; reflexivity].
+Qed.
